@@ -493,3 +493,5 @@ M('C08', 'refactor-retention-locals', AUTH, """    ensure!(
         return Err(ContractError::OutdatedSigners);
     }""", equiv=True)
 MUTANTS.append(dict(MUTANTS[-1], prop='C01', id='refactor-retention-locals-c01'))
+M('C01', 'extra-signer-count-limit', AUTH, '    let signers_set = proof.weighted_signers();\n', '    ensure!(proof.signers.len() <= 8, ContractError::InvalidSigners);\n    let signers_set = proof.weighted_signers();\n', 'C01.R7')
+M('C01', 'reject-unsigned-entries', AUTH, '        if let ProofSignature::Signed(signature) = signature {', '        if signature == ProofSignature::Unsigned {\n            return false;\n        }\n        if let ProofSignature::Signed(signature) = signature {', 'C01.R7')
